@@ -59,6 +59,11 @@ func (in *Interp) invoke(fr *frame, c *ssa.CallCommon, recv Value, args []Value,
 	if nv, ok := iv.V.(*NativeV); ok {
 		return in.nativeInvoke(fr, nv, c.Method.Name(), args)
 	}
+	if pv, ok := iv.V.(PtrV); ok && pv.P != nil {
+		if _, isHash := (*pv.P).(HashV); isHash {
+			return in.hashMethod(fr, pv, "", c.Method.Name(), args)
+		}
+	}
 	fn := in.Prog.LookupMethod(iv.T, c.Method.Pkg(), c.Method.Name())
 	if fn == nil {
 		return in.notEncodable("no method %s on dynamic type %s", c.Method.Name(), iv.T)
@@ -150,7 +155,7 @@ func (in *Interp) builtin(fr *frame, b *ssa.Builtin, args []Value, c *ssa.CallCo
 			if x == nil {
 				return P.Const(64, 0)
 			}
-			return P.Const(64, uint64(len(x.liveKeys())))
+			return P.Const(64, uint64(x.size()))
 		case nil:
 			return P.Const(64, 0)
 		}
@@ -221,14 +226,7 @@ func (in *Interp) builtin(fr *frame, b *ssa.Builtin, args []Value, c *ssa.CallCo
 		if m == nil {
 			return nil
 		}
-		ks, ok := in.mapKey(args[1])
-		if !ok {
-			return in.notEncodable("delete with a symbolic or unsupported key")
-		}
-		if e, ok := m.kv[ks]; ok {
-			e.dead = true
-			delete(m.kv, ks)
-		}
+		in.mapDelete(fr, m, args[1])
 		return nil
 	case "min", "max":
 		t := c.Args[0].Type()
@@ -269,8 +267,7 @@ func (in *Interp) builtin(fr *frame, b *ssa.Builtin, args []Value, c *ssa.CallCo
 			return nil
 		case *MapV:
 			if x != nil {
-				x.keys = nil
-				x.kv = map[string]*mapEntry{}
+				x.clear()
 			}
 			return nil
 		}
